@@ -199,6 +199,12 @@ INT_TEMPLATES = [
     [(0, 0), (6, 0), (6, 2), (2, 2), (2, 6), (0, 6)],       # L shape
     [(1, 0), (3, 2), (5, 0), (6, 1), (4, 3), (6, 5), (5, 6), (3, 4), (1, 6),
      (0, 5), (2, 3), (0, 1)],                               # X shape
+    # self-intersecting outlines whose two lobes have opposite sense and
+    # equal area: the signed (shoelace) area is exactly 0, the region is not
+    # empty (even-odd and non-zero winding agree: each lobe winds once)
+    [(0, 0), (6, 6), (6, 0), (0, 6)],                       # bow-tie
+    [(0, 0), (4, 0), (0, 4), (4, 4)],                       # hourglass
+    [(0, 0), (8, 4), (8, 0), (0, 4)],                       # flat bow-tie
 ]
 
 
